@@ -10,6 +10,11 @@ use vcore::report::{Args, Report};
 pub mod subj;
 pub mod c01;
 pub mod c03;
+pub mod c04;
+pub mod c06;
+pub mod c11;
+pub mod c19;
+pub mod corpus;
 pub mod c05;
 pub mod c12;
 
@@ -48,6 +53,10 @@ fn main() {
             match a2.check.as_str() {
                 "c01" => if replay { c01::replay(&a2, &mut rep) } else { c01::run(&a2, &mut rep) },
                 "c03" => if replay { c03::replay(&a2, &mut rep) } else { c03::run(&a2, &mut rep) },
+                "c04" => if replay { c04::replay(&a2, &mut rep) } else { c04::run(&a2, &mut rep) },
+                "c06" => if replay { c06::replay(&a2, &mut rep, true) } else { c06::run(&a2, &mut rep, true) },
+                "c11" => if replay { c11::replay(&a2, &mut rep) } else { c11::run(&a2, &mut rep) },
+                "c19" => if replay { c19::replay(&a2, &mut rep) } else { c19::run(&a2, &mut rep) },
                 "c05" => if replay { c05::replay(&a2, &mut rep) } else { c05::run(&a2, &mut rep) },
                 "c12" => if replay { c12::replay(&a2, &mut rep) } else { c12::run(&a2, &mut rep) },
                 other => {
